@@ -481,8 +481,17 @@ impl<'a> Unquote<'a> {
             if str_ref.find('\\').is_some() {
                 Cow::from(self.to_string())
             } else {
-                // String is quoted but has no escapes.
-                Cow::from(&str_ref[1..str_ref.len() - 1])
+                // String is quoted but has no escapes: the value runs from
+                // after the opening quote to the closing quote (or to the
+                // end if the quote is never closed).
+                let body = match self.state {
+                    UnquoteState::NotStarted => &str_ref[1..],
+                    _ => str_ref,
+                };
+                match body.find('"') {
+                    Some(end) => Cow::from(&body[..end]),
+                    None => Cow::from(body),
+                }
             }
         } else {
             Cow::from(str_ref)
